@@ -366,3 +366,5 @@ func sliceLiteralElems(t *Term) []*Term {
 	}
 	return variadicElems(t.V)
 }
+
+func ratOf(a, b int64) *big.Rat { return big.NewRat(a, b) }
